@@ -393,7 +393,7 @@ func (e *Env) field(x *Expr) TV {
 	if base.Ty == nil {
 		sfail("field %s of untyped value %s", x.Name, x.Args[0])
 	}
-	obj, index, indirect := types.LookupFieldOrMethod(base.Ty, true, e.x.pkgTypes(), x.Name)
+	obj, index, indirect := lookupField(base.Ty, e.x.pkgTypes(), x.Name)
 	fv, ok := obj.(*types.Var)
 	if !ok || fv == nil {
 		// ghost field?
@@ -521,6 +521,18 @@ func (e *Env) call(x *Expr) TV {
 		}
 	case "alloc":
 		return TV{e.st.Alloc(e.x), nil}
+	case "deref":
+		a := e.Tr(x.Args[0])
+		pt, ok := types.Unalias(a.Ty).Underlying().(*types.Pointer)
+		if !ok {
+			sfail("deref of non-pointer %s", x.Args[0])
+		}
+		e.cands.addRef(a.T)
+		cs := ArraySort(SInt, e.x.tm.SortOf(pt.Elem()))
+		v := Select(e.st.Heap(e.x, e.x.cellHeapName(pt.Elem()), cs), a.T)
+		e.x.wfLoaded(e, v, pt.Elem(), Not(Eq(a.T, IntLit(0))))
+		ty := pt.Elem()
+		return TV{v, ty}
 	case "$loopframe":
 		r := e.Tr(x.Args[0]).T
 		e.cands.addRef(r)
@@ -566,7 +578,7 @@ func (e *Env) call(x *Expr) TV {
 	args := make([]TV, len(x.Args))
 	for i, a := range x.Args {
 		args[i] = e.Tr(a)
-		pt := e.x.parseSpecType(sf.Params[i].Type, e.fnPos)
+		pt := e.x.parseSpecTypeIn(sf.Params[i].Type, sf.PkgPath)
 		if pt.ty != nil {
 			if b, isb := args[i].Ty.(*types.Basic); args[i].Ty == nil || (isb && b.Kind() == types.UntypedNil) {
 				args[i].Ty = pt.ty
@@ -589,7 +601,7 @@ func (e *Env) call(x *Expr) TV {
 	n := e.with(vars)
 	n.depth = e.depth + 1
 	r := n.Tr(sf.Body)
-	rt := e.x.parseSpecType(sf.Ret, e.fnPos)
+	rt := e.x.parseSpecTypeIn(sf.Ret, sf.PkgPath)
 	if r.T.Sort != rt.sort {
 		sfail("spec function %s: body has sort %s, declared %s", sf.Name, r.T.Sort, rt.sort)
 	}
@@ -844,4 +856,18 @@ func (b *Builder) FreshNamed(name string, sort Sort) Term {
 		b.consts[name] = sort
 	}
 	return Term{name, sort}
+}
+
+// lookupField finds a (possibly promoted, possibly unexported) field; specs may name unexported
+// fields of other packages.
+func lookupField(t types.Type, pkg *types.Package, name string) (types.Object, []int, bool) {
+	obj, index, ind := types.LookupFieldOrMethod(t, true, pkg, name)
+	if obj != nil {
+		return obj, index, ind
+	}
+	n, _ := namedStruct(t)
+	if n != nil && n.Obj().Pkg() != nil {
+		obj, index, ind = types.LookupFieldOrMethod(t, true, n.Obj().Pkg(), name)
+	}
+	return obj, index, ind
 }
